@@ -20,9 +20,12 @@ Record tstep := mkStep {
   s_notified : list nat;              (* threads inside Condition.wait(), notified, not yet resumed *)
   s_runnable : list nat;              (* threads the scheduler could grant next (parked, not blocked) *)
   s_done : list nat;                  (* threads whose program has ended *)
-  s_bodies : list (nat * list bool)   (* per thread: the `with` bodies it is inside, innermost first; true = shared.
+  s_bodies : list (nat * list bool);  (* per thread: the `with` bodies it is inside, innermost first; true = shared.
                                          Recorded by the thread programs themselves (enter after __enter__ returned,
                                          removed after __exit__ returned) *)
+  s_stutter : bool;                   (* this step ran the code that FOLLOWS a release (up to the next blocking
+                                         primitive): it must not change anything; the model does not move *)
+  s_released : list nat               (* threads parked right after a release (their own body record lags one step) *)
 }.
 
 Record case := mkCase {
@@ -70,17 +73,22 @@ Definition m_acq_ok (n : nat) (s : state) (items : list (nat * nat)) : bool :=
 Definition m_depth (s : state) : nat := match owner s with Some o => depth_of (stk s o) | None => 0 end.
 Definition m_waiting (n : nat) (s : state) (notified : bool) : list nat :=
   filter (fun t => match stk s t with ExWait _ x :: _ => Bool.eqb x notified | _ => false end) (seq 0 n).
-Definition m_runnable (n : nat) (s : state) (finished : list nat) : list nat :=
+Definition m_runnable (n : nat) (s : state) (finished released : list nat) : list nat :=
   filter (fun t => negb (existsb (Nat.eqb t) finished) &&
-                   match stk s t with
-                   | [] => true                 (* parked before its next request *)
-                   | f :: _ => if is_body f then true else enabled s t
-                   end) (seq 0 n).
+                   (existsb (Nat.eqb t) released ||
+                    match stk s t with
+                    | [] => true                 (* parked before its next request *)
+                    | f :: _ => if is_body f then true else enabled s t
+                    end)) (seq 0 n).
 Definition m_bodies (s : state) (t : nat) : list bool :=   (* counted frames, true = shared *)
   map (fun f => negb (is_exbody f)) (filter counted (stk s t)).
 
 Fixpoint lookupl {A} (t : nat) (l : list (nat * list A)) : list A :=
   match l with [] => [] | (k, v) :: tl => if Nat.eqb k t then v else lookupl t tl end.
+
+(* a thread parked right after a release has a body record that lags one step: the oracles conclude nothing from it *)
+Definition drop_released {A} (rel : list nat) (bod : list (nat * list A)) : list (nat * list A) :=
+  filter (fun kv => negb (existsb (Nat.eqb (fst kv)) rel)) bod.
 
 (* ---- oracle statements on the implementation's observations *)
 Definition excl_ok (n : nat) (bod : list (nat * list bool)) : bool :=
@@ -94,16 +102,17 @@ Definition other_in_exbody (n : nat) (bod : list (nat * list bool)) (t : nat) : 
   existsb (fun u => negb (Nat.eqb u t) && existsb negb (lookupl u bod)) (seq 0 n).
 
 (* one step: (model state, bodies before, finished) -> tags *)
-Definition check_step (n : nat) (s : state) (before : list (nat * list bool)) (st : tstep)
+Definition check_step (n : nat) (s : state) (before0 : list (nat * list bool)) (rbefore : list nat) (st : tstep)
   : option state * list nat :=
   let t := s_tid st in
+  let before := drop_released (filter (fun u => negb (Nat.eqb u t)) rbefore) before0 in
   let top := match stk s t with f :: _ => Some f | [] => None end in
   let oracle :=
     (* 11: exclusion *)
-    tag (excl_ok n (s_bodies st)) 11 ++
+    tag (excl_ok n (drop_released (s_released st) (s_bodies st))) 11 ++
     (* 13: nobody else's holds change in a step of t *)
-    tag (forallb (fun u => Nat.eqb u t || list_eqb Bool.eqb (lookupl u before) (lookupl u (s_bodies st))) (seq 0 n)) 13 ++
-    match s_act st, top, s_obs st with
+    tag (forallb (fun u => Nat.eqb u t || list_eqb Bool.eqb (lookupl u before0) (lookupl u (s_bodies st))) (seq 0 n)) 13 ++
+    match (if s_stutter st then APush ShBody else s_act st), top, s_obs st with
     (* 12: a shared request refused although no other thread is in an exclusive body *)
     | AGo, Some (ShReq _ _), ORaise WouldBlock => tag (other_in_exbody n before t) 12
     (* 14: a non-blocking request never waits, and raises when a conflicting holder exists *)
@@ -113,36 +122,37 @@ Definition check_step (n : nat) (s : state) (before : list (nat * list bool)) (s
     | _, _, _ => []
     end ++
     (* 15: a non-reentrant request by a thread already inside a body never enters *)
-    match s_act st, top, s_obs st with
+    match (if s_stutter st then APush ShBody else s_act st), top, s_obs st with
     | AGo, Some (ShReq _ false), OEnterSh | AGo, Some (ExReq _ false), OEnterEx
     | AGo, Some (ExWait false _), OEnterEx =>
         tag (match lookupl t before with [] => true | _ => false end) 15
     | _, _, _ => []
     end in
-  match stepo s (t, s_act st) with
-  | None => (None, 1 :: oracle)
-  | Some (s', o) =>
-      (Some s',
-       tag (obs_eqb o (s_obs st)) 2 ++
+  let state_tags (s' : state) :=
        tag (m_acq_ok n s' (s_acq st)) 3 ++
        tag (onat_eqb (owner s') (s_owner st) && Nat.eqb (m_depth s') (s_depth st)) 4 ++
        tag (list_eqb Nat.eqb (m_waiting n s' false) (s_waiting st) &&
             list_eqb Nat.eqb (m_waiting n s' true) (s_notified st)) 5 ++
-       tag (list_eqb Nat.eqb (m_runnable n s' (s_done st)) (s_runnable st)) 7 ++
-       tag (forallb (fun u => list_eqb Bool.eqb (m_bodies s' u) (lookupl u (s_bodies st))) (seq 0 n)) 8 ++
-       oracle)
+       tag (list_eqb Nat.eqb (m_runnable n s' (s_done st) (s_released st)) (s_runnable st)) 7 ++
+       tag (forallb (fun u => existsb (Nat.eqb u) (s_released st) ||
+                              list_eqb Bool.eqb (m_bodies s' u) (lookupl u (s_bodies st))) (seq 0 n)) 8 in
+  if s_stutter st then (Some s, state_tags s ++ oracle)
+  else
+  match stepo s (t, s_act st) with
+  | None => (None, 1 :: oracle)
+  | Some (s', o) => (Some s', tag (obs_eqb o (s_obs st)) 2 ++ state_tags s' ++ oracle)
   end.
 
-Fixpoint check_steps (n : nat) (s : state) (before : list (nat * list bool)) (g : bool) (l : list tstep)
+Fixpoint check_steps (n : nat) (s : state) (before : list (nat * list bool)) (rbefore : list nat) (g : bool) (l : list tstep)
   : option state * bool * list (nat * list bool) * list nat :=
   match l with
   | [] => (Some s, g, before, [])
   | st :: tl =>
-      let g' := g && g_label s (s_tid st, s_act st) in
-      match check_step n s before st with
+      let g' := g && (s_stutter st || g_label s (s_tid st, s_act st)) in
+      match check_step n s before rbefore st with
       | (None, tags) => (None, g', s_bodies st, tags)
       | (Some s', tags) =>
-          let '(r, g'', b, tags') := check_steps n s' (s_bodies st) g' tl in (r, g'', b, tags ++ tags')
+          let '(r, g'', b, tags') := check_steps n s' (s_bodies st) (s_released st) g' tl in (r, g'', b, tags ++ tags')
       end
   end.
 
@@ -174,7 +184,7 @@ Definition check_final (c : case) (s : state) (bod : list (nat * list bool)) : l
 
 Definition verdict (c : case) : list nat :=
   let n := c_nthreads c in
-  let '(r, g, bod, tags) := check_steps n init [] true (c_steps c) in
+  let '(r, g, bod, tags) := check_steps n init [] [] true (c_steps c) in
   nodup Nat.eq_dec
     (tags ++
      match r with
